@@ -975,7 +975,23 @@ func isBroadcast(ip net.IP, network *net.IPNet) bool {
 	// Check for all-ones broadcast
 	ip4 := ip.To4()
 	if ip4 != nil {
-		return ip4[0] == 255 && ip4[1] == 255 && ip4[2] == 255 && ip4[3] == 255
+		if ip4[0] == 255 && ip4[1] == 255 && ip4[2] == 255 && ip4[3] == 255 {
+			return true
+		}
+		// Directed broadcast of the given network (all host bits set).
+		// /31 and /32 networks have no broadcast address (RFC 3021).
+		if network != nil {
+			base, mask := network.IP.To4(), network.Mask
+			if ones, bits := mask.Size(); base != nil && bits == 32 && ones < 31 {
+				for i := range ip4 {
+					if ip4[i] != base[i]|^mask[i] {
+						return false
+					}
+				}
+				return true
+			}
+		}
+		return false
 	}
 	// For MAC address broadcast check
 	if len(ip) == 6 {
